@@ -624,8 +624,10 @@ spifconf_shell_expand(spif_charptr_t s)
                       return (spif_charptr_t) NULL;
                   }
                   *(--tmp1) = 0;
-                  Command = spifconf_shell_expand(Command);
-                  Output = (spif_charptr_t) (builtins[k].ptr) (Command);
+                  /* The expansion works in place and returns NULL if the argument itself is malformed;
+                     the buffer is still ours to free. */
+                  tmp1 = spifconf_shell_expand(Command);
+                  Output = (spif_charptr_t) (builtins[k].ptr) (tmp1);
                   FREE(Command);
                   if (Output) {
                       if (*Output) {
@@ -654,8 +656,8 @@ spifconf_shell_expand(spif_charptr_t s)
                   }
                   ASSERT_RVAL(l < CONFIG_BUFF, NULL);
                   Command[l] = 0;
-                  Command = spifconf_shell_expand(Command);
-                  Output = builtin_exec(Command);
+                  tmp1 = spifconf_shell_expand(Command);
+                  Output = builtin_exec(tmp1);
                   FREE(Command);
                   if (Output) {
                       if (*Output) {
